@@ -1,25 +1,97 @@
 (* C06 -- Escrow solvency: module accounts always cover what the chain says it owes.
 
-   Proved: conservation -- every operation other than BeginBlock leaves the supply unchanged
-   and the sum of all tracked balances changes exactly by the supply change (coins only move);
-   BeginBlock only adds. The solvency inequalities themselves (order escrow >= unsettled order
-   amounts; market escrow >= accrued + future income; node escrow >= collateral net of debt +
-   unclaimed rewards) are NOT proved as invariants: they are evaluated as monitors on the
-   implementation state after every step (solv.order, solv.node) and at every block boundary
-   (solv.market). Findings D13 and D23 violate them (KNOWN_FINDINGS.txt). *)
-From SaoVerif Require Import Base.Prelude Base.Ints Base.Dec Model.Did Model.Types Model.Monad Model.Bank Model.Select Model.Node Model.Storage Model.Sao Model.Hooks Model.App Model.Spec Proofs.Frame.
+   Proved: conservation -- every operation other than BeginBlock leaves the supply unchanged and
+   the sum of all tracked balances changes exactly by the supply change; BeginBlock only adds.
+   Proved (Proofs/Escrow.v): the ORDER escrow covers the payment of every non-renewal order in
+   status Pending/DataReady (Inv_order_escrow) -- preserved by every operation and every run under
+   four inductive side conditions (amounts non-negative, order statuses well-formed, no payment
+   address or pledge record IS the escrow account) and one condition on the operation (the escrow
+   account is not itself the sender of a bank transfer -- module accounts cannot sign); each
+   hypothesis has a refuting witness. Corollary refund_never_short: refunding an unsettled order
+   never fails for lack of escrowed funds.
+   NOT proved as invariants: market escrow >= accrued + future income, node escrow >= collateral net
+   of debt + unclaimed rewards. They are monitored on implementation states (solv.market at block
+   boundaries, solv.node after every step). Findings D13 and D23 violate them (KNOWN_FINDINGS.txt). *)
+From SaoVerif Require Import Base.Prelude Base.Ints Base.Dec Model.Did Model.Types Model.Monad Model.Bank Model.Select Model.Node Model.Storage Model.Sao Model.Hooks Model.App Model.Spec Proofs.Frame Model.Inv Proofs.Escrow.
 From RecordUpdate Require Import RecordUpdate.
 Import RecordSetNotations.
 
 Theorem C06_step_conserves : forall cx s op, no_staking op = true ->
   sum_bal (fst (step cx s op)) - sum_bal s = supply (fst (step cx s op)) - supply s.
-Proof. exact step_conserves. Qed.
+Proof. first [exact step_conserves | apply step_conserves]. Qed.
 Print Assumptions C06_step_conserves.
 
 Theorem C06_step_supply : forall cx s op, op <> OBeginBlock -> supply (fst (step cx s op)) = supply s.
-Proof. exact step_supply. Qed.
+Proof. first [exact step_supply | apply step_supply]. Qed.
 Print Assumptions C06_step_supply.
 
 Theorem C06_begin_block_supply : forall cx s, supply s <= supply (fst (step cx s OBeginBlock)).
-Proof. exact begin_block_supply. Qed.
+Proof. first [exact begin_block_supply | apply begin_block_supply]. Qed.
 Print Assumptions C06_begin_block_supply.
+
+(* the order escrow covers every payment taken and not yet settled -- preserved by every operation under four inductive side conditions *)
+Theorem C06_step_order_escrow_partial : forall cx s op,
+  not_from_escrow op -> Inv_amounts s -> Inv_status s -> pay_not_escrow s -> no_escrow_pledge s ->
+  Inv_order_escrow s -> Inv_order_escrow (fst (step cx s op)).
+Proof. first [exact step_order_escrow_partial | apply step_order_escrow_partial]. Qed.
+Print Assumptions C06_step_order_escrow_partial.
+
+(* the side conditions are themselves preserved *)
+Theorem C06_step_amounts : forall cx s op,
+  not_from_escrow op -> Inv_amounts s -> Inv_status s -> pay_not_escrow s -> no_escrow_pledge s ->
+  Inv_amounts (fst (step cx s op)) /\ Inv_status (fst (step cx s op)) /\ pay_not_escrow (fst (step cx s op)) /\
+  no_escrow_pledge (fst (step cx s op)).
+Proof. first [exact step_amounts | apply step_amounts]. Qed.
+Print Assumptions C06_step_amounts.
+
+Theorem C06_run_order_escrow_partial : forall tr s,
+  trace_ok tr -> G s -> Inv_order_escrow s -> G (run tr s) /\ Inv_order_escrow (run tr s).
+Proof. first [exact run_order_escrow_partial | apply run_order_escrow_partial]. Qed.
+Print Assumptions C06_run_order_escrow_partial.
+
+(* hence a refund of an unsettled order never fails for lack of escrowed funds *)
+Theorem C06_refund_never_short : forall s oid o,
+  Inv_amounts s -> Inv_order_escrow s -> orders s !! oid = Some o ->
+  o_op o <> 3 -> (o_status o = OrderPending \/ o_status o = OrderDataReady) ->
+  o_amount o <= balance s ESC /\
+  refund_order oid s =
+    match pay_addr s (Money.paydid_of o) with
+    | None => Err "PayAddrNotSet" s
+    | Some payer => if o_amount o <=? 0 then Err "invalid coins" s else Ok tt (move ESC payer (o_amount o) s)
+    end.
+Proof. first [exact refund_never_short | apply refund_never_short]. Qed.
+Print Assumptions C06_refund_never_short.
+
+Theorem C06_refund_never_short_err : forall s oid o e s',
+  Inv_amounts s -> Inv_order_escrow s -> orders s !! oid = Some o ->
+  o_op o <> 3 -> (o_status o = OrderPending \/ o_status o = OrderDataReady) ->
+  refund_order oid s = Err e s' -> e <> "insufficient funds".
+Proof. first [exact refund_never_short_err | apply refund_never_short_err]. Qed.
+Print Assumptions C06_refund_never_short_err.
+
+(* each hypothesis is needed *)
+Theorem C06_step_order_escrow_refuted_sender : exists cx s op,
+  G s /\ Inv_order_escrow s /\ ~ not_from_escrow op /\ ~ Inv_order_escrow (fst (step cx s op)).
+Proof. first [exact step_order_escrow_refuted_sender | apply step_order_escrow_refuted_sender]. Qed.
+Print Assumptions C06_step_order_escrow_refuted_sender.
+
+Theorem C06_step_order_escrow_refuted_payer : exists cx s op,
+  not_from_escrow op /\ Inv_amounts s /\ Inv_status s /\ no_escrow_pledge s /\ ~ pay_not_escrow s /\
+  Inv_order_escrow s /\ ~ Inv_order_escrow (fst (step cx s op)).
+Proof. first [exact step_order_escrow_refuted_payer | apply step_order_escrow_refuted_payer]. Qed.
+Print Assumptions C06_step_order_escrow_refuted_payer.
+
+Theorem C06_step_order_escrow_refuted_status : exists cx s op,
+  not_from_escrow op /\ Inv_amounts s /\ ~ Inv_status s /\ pay_not_escrow s /\ no_escrow_pledge s /\
+  Inv_order_escrow s /\ ~ Inv_order_escrow (fst (step cx s op)).
+Proof. first [exact step_order_escrow_refuted_status | apply step_order_escrow_refuted_status]. Qed.
+Print Assumptions C06_step_order_escrow_refuted_status.
+
+Theorem C06_escrow_nonvacuous :
+  G Money.ex_s1 /\ Inv_order_escrow Money.ex_s1 /\ slack Money.ex_s1 = 0 /\
+  (exists o, orders Money.ex_s1 !! 1 = Some o /\ order_owes o = 3600 /\ o_status o = OrderDataReady) /\
+  (exists sh, shards Money.ex_s1 !! 1 = Some sh) /\ (exists p, pledges Money.ex_s1 !! "S" = Some p) /\
+  not_from_escrow (OStore Money.ex_msg) /\ not_from_escrow (OCancel "G" "G" 1) /\
+  Inv_order_escrow Money.ex_s2.
+Proof. first [exact escrow_nonvacuous | apply escrow_nonvacuous]. Qed.
+Print Assumptions C06_escrow_nonvacuous.
